@@ -151,7 +151,7 @@ func checkReportAgainstModel(e *core.Env, rep *Report, rc config.ReportConfigura
 func C03(e *core.Env) {
 	res := e.Res
 	res.Rule = "cases = (profile with 3 validations each absent / listed under one level / under two levels / twice under one level / listed but undefined, graph, report configuration); " +
-		"every assignment of the 7 listing options to 3 validations is enumerated in the thorough tier (343 profiles), a seeded sample of 70 in the quick tier, x 3 graphs x 8 configurations with a fixed clock; profile names with accents, quotes, percent signs, astral characters; up to 24 of the non-empty reports are rebuilt by 8 goroutines at once and compared byte-wise with the sequential ones; " +
+		"every assignment of the 7 listing options to 3 validations is enumerated in the thorough tier (343 profiles), a seeded sample of 70 in the quick tier, x 3 graphs x 8 configurations with a fixed clock; profile names with accents, quotes, percent signs, astral characters, surrounding blanks, inner and final line breaks; one profile / data / configuration under three clocks in turn; up to 24 of the non-empty reports are rebuilt by 8 goroutines at once and compared byte-wise with the sequential ones; " +
 		"observables: conforms, (severity, validation, focus) set, result key, context variant, profileName, dateCreated, schema IRIs, positional ids; " +
 		"non-trivial = the report has at least one result; distinct by (listing, graph, configuration)"
 	options := [][]string{{}, {"violation"}, {"warning"}, {"info"}, {"violation", "warning"}, {"warning", "info"}, {"violation", "violation"}}
@@ -203,10 +203,13 @@ func C03(e *core.Env) {
 		profile  string
 	}
 	jobs := []seqJob{}
-	nameStems := []string{"Levels", "Règles ünï", "API rules \U0001F680", "\U00020BB7野家 rules", "Levels \"quoted\" 100%"}
+	nameStems := []string{"Levels", "Règles ünï", "API rules \U0001F680", "\U00020BB7野家 rules", "Levels \"quoted\" 100%", "  padded name  ", "two\nlines"}
 	for li, ls := range all {
 		var b strings.Builder
 		pname := fmt.Sprintf("%s %d-%d-%d", nameStems[li%len(nameStems)], ls[0], ls[1], ls[2])
+		if li%5 == 4 {
+			pname += "\n" // a name that ends in a line break (what a block scalar `profile: |` gives)
+		}
 		b.WriteString("#%Validation Profile 1.0\nprofile: " + yq(pname) + "\nprefixes:\n  ex: http://example.org/ns#\n")
 		for _, level := range []string{"violation", "warning", "info"} {
 			names := []string{}
@@ -322,6 +325,36 @@ func C03(e *core.Env) {
 				res.Count(fmt.Sprintf("results=%d", len(rep.Results)))
 				if li == 3 && gi == 1 && ci == 0 {
 					res.Sample(map[string]any{"profile": profile, "data": data, "configuration": fmt.Sprintf("%+v", rc), "results": sortedKeys(got), "conforms": rep.Conforms})
+				}
+			}
+		}
+	}
+	// the same profile, data and report configuration under three different clocks, one call after the other (also when the
+	// report has no results): dateCreated is the time configured for THAT call
+	{
+		profile := "#%Validation Profile 1.0\nprofile: Clocks\nprefixes:\n  ex: http://example.org/ns#\nviolation:\n  - v0\nvalidations:\n  v0:\n    targetClass: ex.T\n    message: m\n    propertyConstraints:\n      ex.p0:\n        minCount: 1\n"
+		compiled, err := pkg.CompileProfile(profile, false, nil)
+		if err == nil {
+			for gi, g := range graphs {
+				data := g.JSONLD()
+				for round := 0; round < 2; round++ {
+					for _, clock := range []fixedClock{clockA, clockB, clockC} {
+						out, err := pkg.ValidateCompiledWithConfiguration(compiled, data, false, nil, clock, configs[0])
+						res.Case(fmt.Sprintf("clock-history|g%d|%d|%s", gi, round, clock.t.Format(time.RFC3339)), false)
+						res.Count("stream=clock-history")
+						if err != nil {
+							continue
+						}
+						rep, perr := ParseReport(out)
+						if perr != nil {
+							continue
+						}
+						dc, _ := rep.Node["dateCreated"].(string)
+						if t, terr := time.Parse(time.RFC3339, dc); terr != nil || !t.Equal(clock.t) {
+							res.Violate("impl-violates-property", "dateCreated "+dc+" is not the time configured for this call ("+clock.t.Format(time.RFC3339)+")",
+								map[string]any{"profile": profile, "data": data, "configuration": fmt.Sprintf("%+v", configs[0]), "history": "the same compiled profile, data and report configuration validated under clocks A, B, C, A, B, C in turn", "clock_of_this_call": clock.t.Format(time.RFC3339), "report": core.Trunc(out, 2000)})
+						}
+					}
 				}
 			}
 		}
